@@ -1,397 +1,18 @@
-// C06 (part 7/7) — element-type and result-type dependent behaviour of etl/algorithm.hpp.
+// C06 (part 7/8) — element-type and result-type dependent behaviour of etl/algorithm.hpp.
 // Engine E2 (exhaustive small-scope enumeration) + seeded random longer inputs.  See C06_common.cpp.
 //
-// (1) Algorithms that an implementation may special-case by element type (memcmp / memmove / memset / memchr style fast
+// Algorithms that an implementation may special-case by element type (memcmp / memmove / memset / memchr style fast
 //     paths: equal, mismatch, lexicographical_compare, find, count, search, copy / move / fill families, remove, replace,
 //     reverse, rotate, unique, min/max_element, sort, binary searches, merge, includes ...) run on RAW POINTERS into
-//     exact-size heap blocks and through etl::array, for element types signed char, unsigned char, char, char8_t, bool,
-//     a scoped enum over signed char, float and double, with negative values, bytes >= 0x80, -0.0 / +0.0 and (for the
+//     exact-size heap blocks and through etl::array, for element types signed char, unsigned char, char, bool (this TU),
+//     a scoped enum over signed char, float and double (C06_types2.cpp), with negative values, bytes >= 0x80, -0.0 / +0.0 and (for the
 //     equality-based algorithms) NaN; oracle std:: on a std::vector of the same type.  Also etl::array's relational
 //     operators against std::array.
-// (2) Predicates / comparators that return a CLASS which is only contextually convertible to bool (explicit operator
-//     bool): the algorithms must use the result in a boolean context only.  (int results with "true" != 1 are a
-//     dimension of every other C06 harness: Case::tr.)
-#include "C06_common.cpp"
-
-#include <etl/array.hpp>
-
-#include <array>
-#include <cmath>
-#include <cstring>
-#include <limits>
+#include "C06_typed_impl.cpp"
 
 namespace c06 {
 namespace {
 
-auto len(Case const& c) -> int { return static_cast<int>(c.a.size()); }
-auto lenb(Case const& c) -> int { return static_cast<int>(c.b.size()); }
-auto bs(bool v) -> std::string { return v ? "T" : "F"; }
-
-// ================================================================== (1) element types
-enum class SE : signed char { a = -3, b = 5, c = -128, d = 0 };
-
-template <typename T, bool Nan>
-auto tval(int key) -> T
-{
-    int k = key & 3;
-    if constexpr (std::is_same_v<T, bool>) {
-        return k == 1 || k == 2;
-    } else if constexpr (std::is_same_v<T, SE>) {
-        constexpr SE t[] = {SE::a, SE::b, SE::c, SE::d};
-        return t[k];
-    } else if constexpr (std::is_floating_point_v<T>) {
-        // key 0 and 1 compare equal but differ in their bytes; NaN (equality-based checks only) has equal bytes but != itself
-        T const t[] = {T(-0.0), T(0.0), Nan ? std::numeric_limits<T>::quiet_NaN() : T(-1.5), T(2.5)};
-        return t[k];
-    } else if constexpr (std::is_signed_v<T>) {
-        constexpr int t[] = {-3, 5, -128, 0};
-        return static_cast<T>(t[k]);
-    } else {
-        constexpr int t[] = {0xFD, 5, 0x80, 0};
-        return static_cast<T>(t[k]);
-    }
-}
-template <typename T>
-auto t1(T v) -> std::string
-{
-    if constexpr (std::is_floating_point_v<T>) {
-        if (std::isnan(v)) { return "nan"; }
-        char buf[40];
-        std::snprintf(buf, sizeof buf, "%.9g", static_cast<double>(v)); // prints the sign of a zero
-        return buf;
-    } else if constexpr (std::is_enum_v<T>) {
-        return std::to_string(static_cast<int>(v));
-    } else {
-        return std::to_string(static_cast<int>(v));
-    }
-}
-template <typename T>
-auto tv(T const* p, int n) -> std::string
-{
-    std::string s = "[";
-    for (int i = 0; i < n; ++i) { s += (i != 0 ? " " : "") + t1(p[i]); }
-    return s + "]";
-}
-template <typename T>
-auto tv(std::vector<T> const& v) -> std::string
-{
-    std::string s = "[";
-    for (std::size_t i = 0; i < v.size(); ++i) { s += (i != 0 ? " " : "") + t1(T(v[i])); } // T(...) : vector<bool> proxies
-    return s + "]";
-}
-
-std::vector<std::function<std::string()>>& tguards()
-{
-    static std::vector<std::function<std::string()>> v;
-    return v;
-}
-// exact-size heap block (mode 0) or payload between two 64-byte guard zones filled with 0xA5 (mode 1)
-template <typename T>
-struct TBuf {
-    char const* name;
-    unsigned char* raw{nullptr};
-    int n{0};
-    std::size_t padb{0};
-    TBuf(char const* nm, std::vector<T> const& init, int mode) : name{nm}, n{static_cast<int>(init.size())}, padb{mode == 0 ? 0U : 64U}
-    {
-        raw = static_cast<unsigned char*>(::operator new(static_cast<std::size_t>(n) * sizeof(T) + 2 * padb));
-        std::memset(raw, 0xA5, padb);
-        for (int i = 0; i < n; ++i) { new (b() + i) T(init[static_cast<std::size_t>(i)]); }
-        std::memset(raw + padb + static_cast<std::size_t>(n) * sizeof(T), 0xA5, padb);
-        tguards().push_back([this] { return guards(); });
-    }
-    ~TBuf()
-    {
-        tguards().pop_back();
-        ::operator delete(raw);
-    }
-    TBuf(TBuf const&)                    = delete;
-    auto operator=(TBuf const&) -> TBuf& = delete;
-    [[nodiscard]] auto b() const -> T* { return reinterpret_cast<T*>(raw + padb); }
-    [[nodiscard]] auto e() const -> T* { return b() + n; }
-    [[nodiscard]] auto guards() const -> std::string
-    {
-        for (std::size_t i = 0; i < padb; ++i) {
-            if (raw[i] != 0xA5) { return std::string("a byte before buffer '") + name + "' was overwritten"; }
-            if (raw[padb + static_cast<std::size_t>(n) * sizeof(T) + i] != 0xA5) { return std::string("a byte past buffer '") + name + "' (" + num(n) + " elements) was overwritten"; }
-        }
-        return "";
-    }
-    [[nodiscard]] auto str() const -> std::string { return tv(b(), n); }
-};
-auto tverdict(std::string const& e, std::string const& s) -> std::string
-{
-    for (auto const& gfn : tguards()) {
-        auto gd = gfn();
-        if (!gd.empty()) { return "out of range: " + gd + "; etl gave " + e + ", std gives " + s; }
-    }
-    return verdict(e, s);
-}
-
-// One case = (a, b, value key); every algorithm of the family runs on fresh copies.  `Ord` = the type's operator< is a
-// strict weak order on the generated values (false for the NaN variant).
-template <typename T, bool Nan>
-auto typed(Case const& c) -> std::string
-{
-    constexpr bool Ord = !Nan;
-    constexpr bool Flt = std::is_floating_point_v<T>;
-    int const L  = len(c);
-    int const LB = lenb(c);
-    int const m  = L == 0 ? 0 : c.val % (L + 1);
-    std::vector<T> a;
-    std::vector<T> b;
-    for (int k : c.a) { a.push_back(tval<T, Nan>(k)); }
-    for (int k : c.b) { b.push_back(tval<T, Nan>(k)); }
-    T const v  = tval<T, Nan>(c.val);
-    T const nv = tval<T, Nan>(c.val + 1);
-    auto const sa = [&] { // sorted copies for the algorithms that need sorted input
-        auto x = a;
-        if constexpr (Ord) { std::stable_sort(x.begin(), x.end()); }
-        return x;
-    }();
-    auto const sb = [&] {
-        auto x = b;
-        if constexpr (Ord) { std::stable_sort(x.begin(), x.end()); }
-        return x;
-    }();
-    std::string s;
-    std::string e;
-    auto const mode = c.pad;
-
-    // ---------------------------------------------------------------- std
-    {
-        auto f = a.begin();
-        auto l = a.end();
-        s += "eq4=" + bs(std::equal(f, l, b.begin(), b.end()));
-        if (LB >= L) { s += " eq3=" + bs(std::equal(f, l, b.begin())) + " mm3=" + num(std::mismatch(f, l, b.begin()).first - f); }
-        auto mm = std::mismatch(f, l, b.begin(), b.end());
-        s += " mm4=" + num(mm.first - f) + "," + num(mm.second - b.begin());
-        s += " find=" + num(std::find(f, l, v) - f) + " count=" + num(std::count(f, l, v));
-        s += " search=" + num(std::search(f, l, b.begin(), b.end()) - f) + " find_end=" + num(std::find_end(f, l, b.begin(), b.end()) - f) + " ffo=" + num(std::find_first_of(f, l, b.begin(), b.end()) - f);
-        s += " adj=" + num(std::adjacent_find(f, l) - f) + " searchn=" + num(std::search_n(f, l, 2, v) - f) + " perm=" + bs(std::is_permutation(f, l, b.begin(), b.end()));
-        {
-            auto x = a;
-            auto r = std::remove(x.begin(), x.end(), v) - x.begin();
-            x.resize(static_cast<std::size_t>(r));
-            s += " remove=" + num(r) + tv(x);
-        }
-        {
-            auto x = a;
-            std::replace(x.begin(), x.end(), v, nv);
-            s += " replace" + tv(x);
-        }
-        {
-            auto x = a;
-            auto r = std::unique(x.begin(), x.end()) - x.begin();
-            x.resize(static_cast<std::size_t>(r));
-            s += " unique=" + num(r) + tv(x);
-        }
-        {
-            std::vector<T> d(a.size(), nv);
-            auto r = std::remove_copy(f, l, d.begin(), v) - d.begin();
-            d.resize(static_cast<std::size_t>(r));
-            s += " remove_copy=" + num(r) + tv(d);
-            std::vector<T> u(a.size(), nv);
-            auto r2 = std::unique_copy(f, l, u.begin()) - u.begin();
-            u.resize(static_cast<std::size_t>(r2));
-            s += " unique_copy=" + num(r2) + tv(u);
-        }
-        {
-            std::vector<T> d1(a.size(), nv);
-            std::vector<T> d2(a.size(), nv);
-            std::vector<T> d3(a.size(), nv);
-            std::vector<T> d4(a.size(), nv);
-            std::vector<T> d5(a.size(), nv);
-            std::vector<T> d6(a.size(), nv);
-            auto r1 = std::copy(f, l, d1.begin()) - d1.begin();
-            auto r2 = std::copy_n(f, m, d2.begin()) - d2.begin();
-            auto r3 = std::copy_backward(f, l, d3.end()) - d3.begin();
-            auto r4 = std::move(f, l, d4.begin()) - d4.begin();
-            auto r5 = std::reverse_copy(f, l, d5.begin()) - d5.begin();
-            auto r6 = std::rotate_copy(f, f + m, l, d6.begin()) - d6.begin();
-            s += " copy=" + num(r1) + tv(d1) + " copy_n=" + num(r2) + tv(d2) + " copy_backward=" + num(r3) + tv(d3) + " move=" + num(r4) + tv(d4) + " reverse_copy=" + num(r5) + tv(d5) + " rotate_copy=" + num(r6) + tv(d6);
-        }
-        {
-            auto x = a;
-            std::fill(x.begin(), x.end(), v);
-            auto y = a;
-            auto r = std::fill_n(y.begin(), m, v) - y.begin();
-            s += " fill" + tv(x) + " fill_n=" + num(r) + tv(y);
-        }
-        {
-            auto x = a;
-            std::reverse(x.begin(), x.end());
-            auto y = a;
-            auto r = std::rotate(y.begin(), y.begin() + m, y.end()) - y.begin();
-            auto z = a;
-            auto r2 = std::copy(z.begin() + m, z.end(), z.begin()) - z.begin(); // overlapping copy to the left (memmove territory)
-            auto w  = a;
-            auto r3 = std::move_backward(w.begin(), w.end() - m, w.end()) - w.begin();
-            s += " reverse" + tv(x) + " rotate=" + num(r) + tv(y) + " copy_left=" + num(r2) + tv(z) + " move_backward=" + num(r3) + tv(w);
-        }
-        if (LB >= L) {
-            auto x = a;
-            auto y = b;
-            std::swap_ranges(x.begin(), x.end(), y.begin());
-            s += " swap_ranges" + tv(x) + tv(y);
-        }
-        if constexpr (Ord) {
-            s += " lex=" + bs(std::lexicographical_compare(f, l, b.begin(), b.end())) + bs(std::lexicographical_compare(b.begin(), b.end(), f, l));
-            s += " min=" + num(std::min_element(f, l) - f) + " max=" + num(std::max_element(f, l) - f);
-            auto mme = std::minmax_element(f, l);
-            s += " minmax=" + num(mme.first - f) + "," + num(mme.second - f) + " sorted_until=" + num(std::is_sorted_until(f, l) - f) + " is_sorted=" + bs(std::is_sorted(f, l));
-            {
-                auto x = a;
-                std::stable_sort(x.begin(), x.end());
-                s += " stable_sort" + tv(x);
-                if constexpr (!Flt) { // equivalent integral values are identical, so any correct sort gives the same array
-                    s += " sort" + tv(x) + " nth=" + (L == 0 ? std::string("-") : t1(T(x[static_cast<std::size_t>(m == L ? L - 1 : m)])));
-                }
-            }
-            s += " lb=" + num(std::lower_bound(sa.begin(), sa.end(), v) - sa.begin()) + " ub=" + num(std::upper_bound(sa.begin(), sa.end(), v) - sa.begin()) + " bin=" + bs(std::binary_search(sa.begin(), sa.end(), v));
-            s += " includes=" + bs(std::includes(sa.begin(), sa.end(), sb.begin(), sb.end()));
-            {
-                std::vector<T> d(sa.size() + sb.size(), nv);
-                auto r = std::merge(sa.begin(), sa.end(), sb.begin(), sb.end(), d.begin()) - d.begin();
-                s += " merge=" + num(r) + tv(d);
-                std::vector<T> u(sa.size() + sb.size(), nv);
-                auto r2 = std::set_union(sa.begin(), sa.end(), sb.begin(), sb.end(), u.begin()) - u.begin();
-                u.resize(static_cast<std::size_t>(r2));
-                s += " set_union=" + num(r2) + tv(u);
-            }
-            if (L >= 1) { s += " clamp=" + t1(T(std::clamp(a[0], std::min(v, nv), std::max(v, nv)))) + " min2=" + t1(T(std::min(a[0], v))) + " max2=" + t1(T(std::max(a[0], v))); }
-        }
-        if (L == 3 && LB == 3) {
-            std::array<T, 3> x{a[0], a[1], a[2]};
-            std::array<T, 3> y{b[0], b[1], b[2]};
-            s += " array:" + bs(x == y) + bs(x != y);
-            if constexpr (Ord) { s += bs(x < y) + bs(x <= y) + bs(x > y) + bs(x >= y); }
-        }
-    }
-    // ---------------------------------------------------------------- etl (raw pointers)
-    {
-        TBuf<T> A("a", a, mode);
-        TBuf<T> B("b", b, mode);
-        TBuf<T> SA("sorted_a", sa, mode);
-        TBuf<T> SB("sorted_b", sb, mode);
-        Scope sc;
-        T* f  = A.b();
-        T* l  = A.e();
-        T* f2 = B.b();
-        T* l2 = B.e();
-        e += "eq4=" + bs(etl::equal(f, l, f2, l2));
-        if (LB >= L) { e += " eq3=" + bs(etl::equal(f, l, f2)) + " mm3=" + num(etl::mismatch(f, l, f2).first - f); }
-        auto mm = etl::mismatch(f, l, f2, l2);
-        e += " mm4=" + num(mm.first - f) + "," + num(mm.second - f2);
-        e += " find=" + num(etl::find(f, l, v) - f) + " count=" + num(etl::count(f, l, v));
-        e += " search=" + num(etl::search(f, l, f2, l2) - f) + " find_end=" + num(etl::find_end(f, l, f2, l2) - f) + " ffo=" + num(etl::find_first_of(f, l, f2, l2) - f);
-        e += " adj=" + num(etl::adjacent_find(f, l) - f) + " searchn=" + num(etl::search_n(f, l, 2, v) - f) + " perm=" + bs(etl::is_permutation(f, l, f2, l2));
-        {
-            TBuf<T> X("x", a, mode);
-            auto r = etl::remove(X.b(), X.e(), v) - X.b();
-            e += " remove=" + num(r) + tv(X.b(), static_cast<int>(r));
-        }
-        {
-            TBuf<T> X("x", a, mode);
-            etl::replace(X.b(), X.e(), v, nv);
-            e += " replace" + X.str();
-        }
-        {
-            TBuf<T> X("x", a, mode);
-            auto r = etl::unique(X.b(), X.e()) - X.b();
-            e += " unique=" + num(r) + tv(X.b(), static_cast<int>(r));
-        }
-        {
-            auto keep = static_cast<std::size_t>(L - std::count(a.begin(), a.end(), v));
-            TBuf<T> D("remove_copy_dest", std::vector<T>(keep, nv), mode);
-            auto r = etl::remove_copy(f, l, D.b(), v) - D.b();
-            e += " remove_copy=" + num(r) + D.str();
-            auto x  = a;
-            auto ul = static_cast<std::size_t>(std::unique(x.begin(), x.end()) - x.begin());
-            TBuf<T> U("unique_copy_dest", std::vector<T>(ul, nv), mode);
-            auto r2 = etl::unique_copy(f, l, U.b()) - U.b();
-            e += " unique_copy=" + num(r2) + U.str();
-        }
-        {
-            TBuf<T> D1("d1", std::vector<T>(a.size(), nv), mode);
-            TBuf<T> D2("d2", std::vector<T>(a.size(), nv), mode);
-            TBuf<T> D3("d3", std::vector<T>(a.size(), nv), mode);
-            TBuf<T> D4("d4", std::vector<T>(a.size(), nv), mode);
-            TBuf<T> D5("d5", std::vector<T>(a.size(), nv), mode);
-            TBuf<T> D6("d6", std::vector<T>(a.size(), nv), mode);
-            auto r1 = etl::copy(f, l, D1.b()) - D1.b();
-            auto r2 = etl::copy_n(f, m, D2.b()) - D2.b();
-            auto r3 = etl::copy_backward(f, l, D3.e()) - D3.b();
-            auto r4 = etl::move(f, l, D4.b()) - D4.b();
-            auto r5 = etl::reverse_copy(f, l, D5.b()) - D5.b();
-            auto r6 = etl::rotate_copy(f, f + m, l, D6.b()) - D6.b();
-            e += " copy=" + num(r1) + D1.str() + " copy_n=" + num(r2) + D2.str() + " copy_backward=" + num(r3) + D3.str() + " move=" + num(r4) + D4.str() + " reverse_copy=" + num(r5) + D5.str() + " rotate_copy=" + num(r6) + D6.str();
-        }
-        {
-            TBuf<T> X("x", a, mode);
-            etl::fill(X.b(), X.e(), v);
-            TBuf<T> Y("y", a, mode);
-            auto r = etl::fill_n(Y.b(), m, v) - Y.b();
-            e += " fill" + X.str() + " fill_n=" + num(r) + Y.str();
-        }
-        {
-            TBuf<T> X("x", a, mode);
-            etl::reverse(X.b(), X.e());
-            TBuf<T> Y("y", a, mode);
-            auto r = etl::rotate(Y.b(), Y.b() + m, Y.e()) - Y.b();
-            TBuf<T> Z("z", a, mode);
-            auto r2 = etl::copy(Z.b() + m, Z.e(), Z.b()) - Z.b();
-            TBuf<T> W("w", a, mode);
-            auto r3 = etl::move_backward(W.b(), W.e() - m, W.e()) - W.b();
-            e += " reverse" + X.str() + " rotate=" + num(r) + Y.str() + " copy_left=" + num(r2) + Z.str() + " move_backward=" + num(r3) + W.str();
-        }
-        if (LB >= L) {
-            TBuf<T> X("x", a, mode);
-            TBuf<T> Y("y", b, mode);
-            etl::swap_ranges(X.b(), X.e(), Y.b());
-            e += " swap_ranges" + X.str() + Y.str();
-        }
-        if constexpr (Ord) {
-            e += " lex=" + bs(etl::lexicographical_compare(f, l, f2, l2)) + bs(etl::lexicographical_compare(f2, l2, f, l));
-            e += " min=" + num(etl::min_element(f, l) - f) + " max=" + num(etl::max_element(f, l) - f);
-            auto mme = etl::minmax_element(f, l);
-            e += " minmax=" + num(mme.first - f) + "," + num(mme.second - f) + " sorted_until=" + num(etl::is_sorted_until(f, l) - f) + " is_sorted=" + bs(etl::is_sorted(f, l));
-            {
-                TBuf<T> X("x", a, mode);
-                etl::stable_sort(X.b(), X.e());
-                e += " stable_sort" + X.str();
-                if constexpr (!Flt) {
-                    TBuf<T> Y("y", a, mode);
-                    etl::sort(Y.b(), Y.e());
-                    TBuf<T> Z("z", a, mode);
-                    etl::nth_element(Z.b(), Z.b() + m, Z.e());
-                    e += " sort" + Y.str() + " nth=" + (L == 0 ? std::string("-") : t1(Z.b()[m == L ? L - 1 : m]));
-                    if (m == L && L > 0) { e.resize(e.size()); } // nth == last: nothing is specified about the contents; the rendering uses std's sorted value
-                }
-            }
-            e += " lb=" + num(etl::lower_bound(SA.b(), SA.e(), v) - SA.b()) + " ub=" + num(etl::upper_bound(SA.b(), SA.e(), v) - SA.b()) + " bin=" + bs(etl::binary_search(SA.b(), SA.e(), v));
-            e += " includes=" + bs(etl::includes(SA.b(), SA.e(), SB.b(), SB.e()));
-            {
-                TBuf<T> D("merge_dest", std::vector<T>(sa.size() + sb.size(), nv), mode);
-                auto r = etl::merge(SA.b(), SA.e(), SB.b(), SB.e(), D.b()) - D.b();
-                e += " merge=" + num(r) + D.str();
-                std::vector<T> u(sa.size() + sb.size(), nv);
-                auto ul = static_cast<std::size_t>(std::set_union(sa.begin(), sa.end(), sb.begin(), sb.end(), u.begin()) - u.begin());
-                TBuf<T> U("set_union_dest", std::vector<T>(ul, nv), mode);
-                auto r2 = etl::set_union(SA.b(), SA.e(), SB.b(), SB.e(), U.b()) - U.b();
-                e += " set_union=" + num(r2) + U.str();
-            }
-            if (L >= 1) { e += " clamp=" + t1(T(etl::clamp(f[0], etl::min(v, nv), etl::max(v, nv)))) + " min2=" + t1(T(etl::min(f[0], v))) + " max2=" + t1(T(etl::max(f[0], v))); }
-        }
-        if (L == 3 && LB == 3) {
-            etl::array<T, 3> x{a[0], a[1], a[2]};
-            etl::array<T, 3> y{b[0], b[1], b[2]};
-            e += " array:" + bs(x == y) + bs(x != y);
-            if constexpr (Ord) { e += bs(x < y) + bs(x <= y) + bs(x > y) + bs(x >= y); }
-        }
-    }
-    return tverdict(e, s);
-}
 template <typename K>
 auto a_t_schar(Case const& c) -> std::string { return typed<signed char, false>(c); }
 template <typename K>
@@ -399,268 +20,7 @@ auto a_t_uchar(Case const& c) -> std::string { return typed<unsigned char, false
 template <typename K>
 auto a_t_char(Case const& c) -> std::string { return typed<char, false>(c); }
 template <typename K>
-auto a_t_char8(Case const& c) -> std::string { return typed<char8_t, false>(c); }
-template <typename K>
 auto a_t_bool(Case const& c) -> std::string { return typed<bool, false>(c); }
-template <typename K>
-auto a_t_enum(Case const& c) -> std::string { return typed<SE, false>(c); }
-template <typename K>
-auto a_t_float(Case const& c) -> std::string { return typed<float, false>(c); }
-template <typename K>
-auto a_t_double(Case const& c) -> std::string { return typed<double, false>(c); }
-template <typename K>
-auto a_t_float_nan(Case const& c) -> std::string { return typed<float, true>(c); }
-template <typename K>
-auto a_t_double_nan(Case const& c) -> std::string { return typed<double, true>(c); }
-
-// ================================================================== (2) results of class type, explicit operator bool
-struct Truthy {
-    bool v;
-    explicit operator bool() const { return v; }
-};
-struct PredC {
-    int id;
-    auto operator()(Elem const& e) const -> Truthy
-    {
-        touch(&e, "predicate applied to");
-        return Truthy{pred_eval(id, e.key)};
-    }
-};
-struct CmpC {
-    int id;
-    auto operator()(Elem const& a, Elem const& b) const -> Truthy
-    {
-        touch(&a, "comparator applied to");
-        touch(&b, "comparator applied to");
-        return Truthy{cmp_eval(id, a.key, b.key)};
-    }
-};
-struct EqC {
-    int id;
-    auto operator()(Elem const& a, Elem const& b) const -> Truthy
-    {
-        touch(&a, "binary predicate applied to");
-        touch(&b, "binary predicate applied to");
-        return Truthy{eq_eval(id, a.key, b.key)};
-    }
-};
-auto keys_of(Elem const* p, int n) -> std::string
-{
-    std::string s = "[";
-    for (int i = 0; i < n; ++i) { s += (i != 0 ? " " : "") + num(p[i].key); }
-    return s + "]";
-}
-
-// stable_partition is not in this list: `f + p(*f)` in its body does not compile for a class result (not a behaviour)
-template <typename K>
-auto a_class_unary(Case const& c) -> std::string
-{
-    V a = mk(c.a, 0);
-    PredC p{c.pred};
-    int const L = len(c);
-    std::string s;
-    std::string e;
-    int ntrue = 0;
-    for (int k : c.a) { ntrue += pred_eval(c.pred, k) ? 1 : 0; }
-    {
-        auto f = a.begin();
-        auto l = a.end();
-        s += bs(std::all_of(f, l, p)) + bs(std::any_of(f, l, p)) + bs(std::none_of(f, l, p)) + " count_if=" + num(std::count_if(f, l, p)) + " find_if=" + num(std::find_if(f, l, p) - f) + " find_if_not=" + num(std::find_if_not(f, l, p) - f)
-           + " is_partitioned=" + bs(std::is_partitioned(f, l, p));
-        V d(a.size(), Elem{55, -55});
-        auto r = std::copy_if(f, l, d.begin(), p) - d.begin();
-        s += " copy_if=" + num(r) + ren(d.data(), static_cast<int>(r));
-        V d2(a.size(), Elem{55, -55});
-        auto r2 = std::remove_copy_if(f, l, d2.begin(), p) - d2.begin();
-        s += " remove_copy_if=" + num(r2) + ren(d2.data(), static_cast<int>(r2));
-        V x = a;
-        auto r3 = std::remove_if(x.begin(), x.end(), p) - x.begin();
-        s += " remove_if=" + num(r3) + ren(x.data(), static_cast<int>(r3));
-        V y = a;
-        std::replace_if(y.begin(), y.end(), p, Elem{7, 700});
-        s += " replace_if" + ren(y);
-        V dt(a.size(), Elem{55, -55});
-        V df(a.size(), Elem{55, -55});
-        auto pc = std::partition_copy(f, l, dt.begin(), df.begin(), p);
-        s += " partition_copy=" + num(pc.first - dt.begin()) + "," + num(pc.second - df.begin()) + ren(dt.data(), static_cast<int>(pc.first - dt.begin())) + ren(df.data(), static_cast<int>(pc.second - df.begin()));
-        V z = a;
-        std::stable_partition(z.begin(), z.end(), p);
-        s += " partition=" + num(ntrue) + " partition_point=" + num(std::partition_point(z.begin(), z.end(), p) - z.begin());
-    }
-    {
-        Buf A("a", a, c.pad, padn(c));
-        Scope sc;
-        auto f = A.b();
-        auto l = A.e();
-        e += bs(etl::all_of(f, l, p)) + bs(etl::any_of(f, l, p)) + bs(etl::none_of(f, l, p)) + " count_if=" + num(etl::count_if(f, l, p)) + " find_if=" + num(etl::find_if(f, l, p) - f) + " find_if_not=" + num(etl::find_if_not(f, l, p) - f)
-           + " is_partitioned=" + bs(etl::is_partitioned(f, l, p));
-        Buf D("copy_if_dest", ntrue, c.pad, padn(c));
-        auto r = etl::copy_if(f, l, D.b(), p) - D.b();
-        e += " copy_if=" + num(r) + ren(D);
-        Buf D2("remove_copy_if_dest", L - ntrue, c.pad, padn(c));
-        auto r2 = etl::remove_copy_if(f, l, D2.b(), p) - D2.b();
-        e += " remove_copy_if=" + num(r2) + ren(D2);
-        Buf X("x", a, c.pad, padn(c));
-        auto r3 = etl::remove_if(X.b(), X.e(), p) - X.b();
-        e += " remove_if=" + num(r3) + ren(X.b(), static_cast<int>(r3));
-        Buf Y("y", a, c.pad, padn(c));
-        etl::replace_if(Y.b(), Y.e(), p, Elem{7, 700});
-        e += " replace_if" + ren(Y);
-        Buf DT("dest_true", ntrue, c.pad, padn(c));
-        Buf DF("dest_false", L - ntrue, c.pad, padn(c));
-        auto pc = etl::partition_copy(f, l, DT.b(), DF.b(), p);
-        e += " partition_copy=" + num(pc.first - DT.b()) + "," + num(pc.second - DF.b()) + ren(DT) + ren(DF);
-        Buf Z("z", a, c.pad, padn(c));
-        auto pr = etl::partition(Z.b(), Z.e(), p) - Z.b();
-        bool ok = is_perm(Z.b(), Z.n, a);
-        for (int i = 0; i < L; ++i) { ok = ok && pred_eval(c.pred, Z.b()[i].key) == (i < ntrue); }
-        e += " partition=" + (ok ? num(pr) : "invalid" + ren(Z)) + " partition_point=" + num(etl::partition_point(Z.b(), Z.e(), p) - Z.b());
-    }
-    return verdict(e, s);
-}
-template <typename K>
-auto a_class_binary(Case const& c) -> std::string
-{
-    V a = mk(c.a, 0);
-    V b = mk(c.b, 100);
-    EqC q{c.eq};
-    Elem v{c.val, 900};
-    std::string s;
-    std::string e;
-    {
-        auto f = a.begin();
-        auto l = a.end();
-        auto mm = std::mismatch(f, l, b.begin(), b.end(), q);
-        s += "equal=" + bs(std::equal(f, l, b.begin(), b.end(), q)) + " mismatch=" + num(mm.first - f) + "," + num(mm.second - b.begin()) + " search=" + num(std::search(f, l, b.begin(), b.end(), q) - f)
-           + " find_end=" + num(std::find_end(f, l, b.begin(), b.end(), q) - f) + " find_first_of=" + num(std::find_first_of(f, l, b.begin(), b.end(), q) - f) + " adjacent_find=" + num(std::adjacent_find(f, l, q) - f)
-           + " search_n=" + num(std::search_n(f, l, 2, v, q) - f);
-        V x = a;
-        auto r = std::unique(x.begin(), x.end(), q) - x.begin();
-        s += " unique=" + num(r) + ren(x.data(), static_cast<int>(r));
-        V d(a.size(), Elem{55, -55});
-        auto r2 = std::unique_copy(f, l, d.begin(), q) - d.begin();
-        s += " unique_copy=" + num(r2) + ren(d.data(), static_cast<int>(r2));
-    }
-    {
-        Buf A("a", a, c.pad, padn(c));
-        Buf B("b", b, c.pad, padn(c));
-        Scope sc;
-        auto f  = A.b();
-        auto l  = A.e();
-        auto mm = etl::mismatch(f, l, B.b(), B.e(), q);
-        e += "equal=" + bs(etl::equal(f, l, B.b(), B.e(), q)) + " mismatch=" + num(mm.first - f) + "," + num(mm.second - B.b()) + " search=" + num(etl::search(f, l, B.b(), B.e(), q) - f)
-           + " find_end=" + num(etl::find_end(f, l, B.b(), B.e(), q) - f) + " find_first_of=" + num(etl::find_first_of(f, l, B.b(), B.e(), q) - f) + " adjacent_find=" + num(etl::adjacent_find(f, l, q) - f)
-           + " search_n=" + num(etl::search_n(f, l, 2, v, q) - f);
-        Buf X("x", a, c.pad, padn(c));
-        auto r = etl::unique(X.b(), X.e(), q) - X.b();
-        e += " unique=" + num(r) + ren(X.b(), static_cast<int>(r));
-        V x = a;
-        auto ul = static_cast<int>(std::unique(x.begin(), x.end(), Eq{c.eq}) - x.begin());
-        Buf D("unique_copy_dest", ul, c.pad, padn(c));
-        auto r2 = etl::unique_copy(f, l, D.b(), q) - D.b();
-        e += " unique_copy=" + num(r2) + ren(D);
-    }
-    return verdict(e, s);
-}
-template <typename K>
-auto a_class_compare(Case const& c) -> std::string
-{
-    V a = mk(c.a, 0);
-    V b = mk(c.b, 100);
-    CmpC q{c.cmp};
-    Elem v{c.val, 900};
-    int const L = len(c);
-    int const m = L == 0 ? 0 : c.val % (L + 1);
-    V sa = a;
-    V sb = b;
-    std::stable_sort(sa.begin(), sa.end(), Cmp{c.cmp});
-    std::stable_sort(sb.begin(), sb.end(), Cmp{c.cmp});
-    V halves = a;
-    std::stable_sort(halves.begin(), halves.begin() + m, Cmp{c.cmp});
-    std::stable_sort(halves.begin() + m, halves.end(), Cmp{c.cmp});
-    std::string s;
-    std::string e;
-    {
-        auto f = a.begin();
-        auto l = a.end();
-        auto mme = std::minmax_element(f, l, q);
-        s += "is_sorted=" + bs(std::is_sorted(f, l, q)) + " until=" + num(std::is_sorted_until(f, l, q) - f) + " min=" + num(std::min_element(f, l, q) - f) + " max=" + num(std::max_element(f, l, q) - f) + " minmax=" + num(mme.first - f) + ","
-           + num(mme.second - f) + " lex=" + bs(std::lexicographical_compare(f, l, b.begin(), b.end(), q));
-        V x = a;
-        std::stable_sort(x.begin(), x.end(), q);
-        s += " stable_sort" + ren(x) + " sort" + keys_of(x.data(), L) + " nth=" + (m < L ? num(x[static_cast<std::size_t>(m)].key & (c.cmp == 2 ? 1 : ~0)) : std::string("-"));
-        auto er = std::equal_range(sa.begin(), sa.end(), v, q);
-        s += " lb=" + num(std::lower_bound(sa.begin(), sa.end(), v, q) - sa.begin()) + " ub=" + num(std::upper_bound(sa.begin(), sa.end(), v, q) - sa.begin()) + " er=" + num(er.first - sa.begin()) + "," + num(er.second - sa.begin())
-           + " bin=" + bs(std::binary_search(sa.begin(), sa.end(), v, q)) + " includes=" + bs(std::includes(sa.begin(), sa.end(), sb.begin(), sb.end(), q));
-        V d(sa.size() + sb.size(), Elem{55, -55});
-        std::merge(sa.begin(), sa.end(), sb.begin(), sb.end(), d.begin(), q);
-        s += " merge" + ren(d);
-        V u(sa.size() + sb.size(), Elem{55, -55});
-        auto r = std::set_union(sa.begin(), sa.end(), sb.begin(), sb.end(), u.begin(), q) - u.begin();
-        s += " set_union=" + num(r) + ren(u.data(), static_cast<int>(r));
-        V i2(sa.size() + sb.size(), Elem{55, -55});
-        auto r2 = std::set_intersection(sa.begin(), sa.end(), sb.begin(), sb.end(), i2.begin(), q) - i2.begin();
-        s += " set_intersection=" + num(r2) + ren(i2.data(), static_cast<int>(r2));
-        V h = halves;
-        std::inplace_merge(h.begin(), h.begin() + m, h.end(), q);
-        s += " inplace_merge" + ren(h);
-        if (L >= 2) { s += " min2=" + num(&std::min(a[0], a[1], q) - a.data()) + " max2=" + num(&std::max(a[0], a[1], q) - a.data()); }
-    }
-    {
-        Buf A("a", a, c.pad, padn(c));
-        Buf B("b", b, c.pad, padn(c));
-        Buf SA("sorted_a", sa, c.pad, padn(c));
-        Buf SB("sorted_b", sb, c.pad, padn(c));
-        Scope sc;
-        auto f   = A.b();
-        auto l   = A.e();
-        auto mme = etl::minmax_element(f, l, q);
-        e += "is_sorted=" + bs(etl::is_sorted(f, l, q)) + " until=" + num(etl::is_sorted_until(f, l, q) - f) + " min=" + num(etl::min_element(f, l, q) - f) + " max=" + num(etl::max_element(f, l, q) - f) + " minmax=" + num(mme.first - f) + ","
-           + num(mme.second - f) + " lex=" + bs(etl::lexicographical_compare(f, l, B.b(), B.e(), q));
-        Buf X("x", a, c.pad, padn(c));
-        etl::stable_sort(X.b(), X.e(), q);
-        Buf Y("y", a, c.pad, padn(c));
-        etl::sort(Y.b(), Y.e(), q);
-        Buf Z("z", a, c.pad, padn(c));
-        etl::nth_element(Z.b(), Z.b() + m, Z.e(), q);
-        // sort / nth_element are unstable: only the keys (mod-2 classes for the modulo comparator) are compared
-        std::string sk = "[";
-        for (int i = 0; i < L; ++i) { sk += (i != 0 ? " " : "") + num(c.cmp == 2 ? (Y.b()[i].key & 1) : Y.b()[i].key); }
-        sk += "]";
-        e += " stable_sort" + ren(X) + " sort" + (c.cmp == 2 ? std::string() : sk) + " nth=" + (m < L ? num(Z.b()[m].key & (c.cmp == 2 ? 1 : ~0)) : std::string("-"));
-        if (c.cmp == 2) { // compare classes instead: rebuild std's rendering in the same form
-            std::string want = "[";
-            V x = a;
-            std::stable_sort(x.begin(), x.end(), Cmp{2});
-            for (int i = 0; i < L; ++i) { want += (i != 0 ? " " : "") + num(x[static_cast<std::size_t>(i)].key & 1); }
-            want += "]";
-            if (sk != want) { return "sort with a class-type comparator result: key classes " + sk + ", expected " + want; }
-            auto pos = s.find(" sort[");
-            auto end = s.find(']', pos);
-            s.erase(pos + 5, end - (pos + 5) + 1);
-        }
-        auto er = etl::equal_range(SA.b(), SA.e(), v, q);
-        e += " lb=" + num(etl::lower_bound(SA.b(), SA.e(), v, q) - SA.b()) + " ub=" + num(etl::upper_bound(SA.b(), SA.e(), v, q) - SA.b()) + " er=" + num(er.first - SA.b()) + "," + num(er.second - SA.b())
-           + " bin=" + bs(etl::binary_search(SA.b(), SA.e(), v, q)) + " includes=" + bs(etl::includes(SA.b(), SA.e(), SB.b(), SB.e(), q));
-        Buf D("merge_dest", static_cast<int>(sa.size() + sb.size()), c.pad, padn(c));
-        etl::merge(SA.b(), SA.e(), SB.b(), SB.e(), D.b(), q);
-        e += " merge" + ren(D);
-        V u(sa.size() + sb.size(), Elem{55, -55});
-        auto ul = static_cast<int>(std::set_union(sa.begin(), sa.end(), sb.begin(), sb.end(), u.begin(), Cmp{c.cmp}) - u.begin());
-        Buf U("set_union_dest", ul, c.pad, padn(c));
-        auto r = etl::set_union(SA.b(), SA.e(), SB.b(), SB.e(), U.b(), q) - U.b();
-        e += " set_union=" + num(r) + ren(U);
-        auto il = static_cast<int>(std::set_intersection(sa.begin(), sa.end(), sb.begin(), sb.end(), u.begin(), Cmp{c.cmp}) - u.begin());
-        Buf I2("set_intersection_dest", il, c.pad, padn(c));
-        auto r2 = etl::set_intersection(SA.b(), SA.e(), SB.b(), SB.e(), I2.b(), q) - I2.b();
-        e += " set_intersection=" + num(r2) + ren(I2);
-        Buf H("halves", halves, c.pad, padn(c));
-        etl::inplace_merge(H.b(), H.b() + m, H.e(), q);
-        e += " inplace_merge" + ren(H);
-        if (L >= 2) { e += " min2=" + num(&etl::min(f[0], f[1], q) - f) + " max2=" + num(&etl::max(f[0], f[1], q) - f); }
-    }
-    return verdict(e, s);
-}
 
 } // namespace
 
@@ -671,16 +31,7 @@ auto table() -> std::vector<Entry> const&
         C06_REG(a_t_schar, "types_signed_char", TY, KP),
         C06_REG(a_t_uchar, "types_unsigned_char", TY, KP),
         C06_REG(a_t_char, "types_char", TY, KP),
-        C06_REG(a_t_char8, "types_char8_t", TY, KP),
         C06_REG(a_t_bool, "types_bool", TY, KP),
-        C06_REG(a_t_enum, "types_enum_signed_char", TY, KP),
-        C06_REG(a_t_float, "types_float", TY, KP),
-        C06_REG(a_t_double, "types_double", TY, KP),
-        C06_REG(a_t_float_nan, "types_float_nan", TY, KP),
-        C06_REG(a_t_double_nan, "types_double_nan", TY, KP),
-        C06_REG(a_class_unary, "class_result_unary_predicates", D_PRED, KP),
-        C06_REG(a_class_binary, "class_result_binary_predicates", D_EQV | D_B | D_VAL | D_LEN4, KP),
-        C06_REG(a_class_compare, "class_result_comparators", D_CMP | D_B | D_VAL | D_LEN4, KP),
     };
     return t;
 }
